@@ -1765,7 +1765,18 @@ func (c *linkerContext) scanImportsAndExports() {
 						}
 					}
 
-					for _, otherPartIndex := range repr.TopLevelSymbolToParts(ref) {
+					// A use recorded under a symbol that hoisting merged into another one
+					// (a nested "var" that redeclares a top-level "var" or function) is a
+					// use of the merged symbol: that is the key of the symbol-to-parts map
+					target := ref
+					for {
+						link := graph.Symbols.Get(target).Link
+						if link == ast.InvalidRef {
+							break
+						}
+						target = link
+					}
+					for _, otherPartIndex := range repr.TopLevelSymbolToParts(target) {
 						if oldPartIndex, ok := localDependencies[otherPartIndex]; !ok || oldPartIndex != uint32(partIndex) {
 							localDependencies[otherPartIndex] = uint32(partIndex)
 							part.Dependencies = append(part.Dependencies, js_ast.Dependency{
